@@ -45,6 +45,20 @@ Theorem C01_state_renaming_invisible :
 Proof. intros x y p H orc args. exact (ren_prog_run orc x y p args H). Qed.
 Print Assumptions C01_state_renaming_invisible.
 
+(* ElideEmptySetupOps: removing a field-less setup never changes a run (no hypothesis at all), and
+   the rewrite exactly as the pass performs it (out-state [tg] replaced by the input state [i]
+   everywhere) preserves the trace whenever [i] is itself never bound by the machine, i.e. it is
+   the out-state of another setup (when [i] is a loop-carried argument or an scf result the rewrite
+   is covered by L1/L2 only). *)
+Theorem C01_elide_rule_partial :
+  forall (tg i : val) (p : prog),
+  mem_nat tg (prog_binds (drop_prog tg p)) = false ->
+  mem_nat i (prog_binds (drop_prog tg p)) = false ->
+  forall (orc : oracle) (args : list Z),
+  trace_sim_b (run orc p args) (run orc (ren_prog (rn tg i) (drop_prog tg p)) args) = true.
+Proof. intros tg i p Hx Hy orc args. exact (elide_rule_preserves tg i p orc args Hx Hy). Qed.
+Print Assumptions C01_elide_rule_partial.
+
 (* any finite sequence of applications, each with its own selection of setups: the certificate
    survives every application (simp_wf), and the register-level trace relation is transitive *)
 Theorem C01_simplify_sequence_partial :
